@@ -37,6 +37,11 @@ import (
 // entry point, in child processes (re-exec of this test binary) because
 // util.EnsureRead, used by every broker read, runs the reads in helper
 // goroutines: a panic there cannot be recovered and would kill the process.
+// State between reads: all brokers of a child share one long-lived set of
+// encoders (as all connections of a node do); every hostile stream is
+// presented 2-4 times in a row to freshly made brokers, and honest exchanges
+// must still round trip through the same objects afterwards (the round-trip
+// oracle of part 1, run inside the child).
 
 const envChild = "C30_CHILD"
 
@@ -84,12 +89,14 @@ type chunkReader struct {
 	eofWithData bool // the last chunk arrives together with io.EOF (allowed by io.Reader; quic streams do it)
 	overread    bool
 	reads       int
+	maxAsk      int // largest buffer the reader asked to fill
 }
 
 func (c *chunkReader) Read(b []byte) (int, error) {
 	if len(b) == 0 {
 		return 0, nil
 	}
+	c.maxAsk = max(c.maxAsk, len(b))
 	avail := len(c.p.buf) - c.pos
 	if avail == 0 {
 		if c.p.closed {
@@ -220,8 +227,40 @@ type rtCase struct {
 	WriterOnly bool     `json:"handler_writer_not_closer"`
 }
 
+// reporter is what a round trip needs from its surroundings: *vlib.Run in the
+// parent process, childReporter inside a fuzz child (round trips that follow
+// hostile streams through the same long-lived encoders).
+type reporter interface {
+	Case(fp string)
+	Count(k string, n int)
+	Sample(v any)
+	Violation(sig, what string, witness any)
+	Inconclusive(reason string)
+	Guard(sigPrefix string, witness any, f func()) bool
+}
+
+type rtEnv struct {
+	rep      reporter
+	prefix   string // signature prefix: "roundtrip" | "roundtrip-after-hostile"
+	counters string // counter prefix
+	small    bool   // small bodies only
+	minChunk int    // smallest chunk mode
+	rng      *rand.Rand
+	rngA     *rand.Rand // chunking of the request stream
+	rngB     *rand.Rand // chunking of the response stream
+	after    any        // what came before through the same encoders (witness only)
+}
+
 func roundTrip(r *vlib.Run, g *rig, idx int) {
-	rng := r.Rand(30, 1, idx)
+	roundTripWith(rtEnv{
+		rep: r, prefix: "roundtrip", counters: "roundtrip_",
+		rng: r.Rand(30, 1, idx), rngA: r.Rand(30, 11, idx), rngB: r.Rand(30, 12, idx),
+	}, g, idx)
+}
+
+func roundTripWith(e rtEnv, g *rig, idx int) {
+	r := e.rep
+	rng := e.rng
 	ctx := context.Background()
 	rb := g.req[idx%len(g.req)]
 	req, err := rb.f(rng)
@@ -231,8 +270,8 @@ func roundTrip(r *vlib.Run, g *rig, idx int) {
 	}
 	sb := g.res[rng.Intn(len(g.res))]
 	res := sb.f(rng)
-	reqBodies := genBodies(rng, false)
-	resBodies := genBodies(rng, false)
+	reqBodies := genBodies(rng, e.small)
+	resBodies := genBodies(rng, e.small)
 	errInstead := rng.Intn(6) == 0
 	var errHead quicstreamheader.ResponseHeader
 	if errInstead {
@@ -246,7 +285,7 @@ func roundTrip(r *vlib.Run, g *rig, idx int) {
 		Idx: idx, Request: rb.name, Response: sb.name, ErrInstead: errInstead,
 		EOFData: rng.Intn(2) == 0, WriterOnly: rng.Intn(4) == 0,
 	}
-	ma, mb := rng.Intn(nChunkModes), rng.Intn(nChunkModes)
+	ma, mb := e.minChunk+rng.Intn(nChunkModes-e.minChunk), e.minChunk+rng.Intn(nChunkModes-e.minChunk)
 	c.ChunkA, c.ChunkB = chunkNames[ma], chunkNames[mb]
 	for _, b := range reqBodies {
 		c.ReqBodies = append(c.ReqBodies, b.String())
@@ -267,19 +306,23 @@ func roundTrip(r *vlib.Run, g *rig, idx int) {
 
 	shape := fmt.Sprintf("%s|%v|%s|%v|%v|%s|%s|%v", rb.name, c.ReqBodies, sb.name, c.ResBodies, errInstead, c.ChunkA, c.ChunkB, c.EOFData)
 	r.Case(shape)
-	r.Count("roundtrip_header_"+rb.name, 1)
+	r.Count(e.counters+"header_"+rb.name, 1)
 	if idx < 3 {
 		r.Sample(c)
 	}
+	var witness any = c
+	if e.after != nil {
+		witness = map[string]any{"round_trip": c, "read_before_through_the_same_encoders": e.after}
+	}
 	fail := func(step, kind, what string) {
-		r.Violation(fmt.Sprintf("roundtrip:%s:%s:eof-with-data=%v", step, kind, c.EOFData), fmt.Sprintf("round trip %d (%s): %s: %s", idx, rb.name, step, what), c)
+		r.Violation(fmt.Sprintf("%s:%s:%s:eof-with-data=%v", e.prefix, step, kind, c.EOFData), fmt.Sprintf("round trip %d (%s): %s: %s", idx, rb.name, step, what), witness)
 	}
 
 	A, B := &pipe{}, &pipe{}
-	ra := &chunkReader{p: A, rng: r.Rand(30, 11, idx), mode: ma, eofWithData: c.EOFData}
-	rbd := &chunkReader{p: B, rng: r.Rand(30, 12, idx), mode: mb, eofWithData: c.EOFData}
+	ra := &chunkReader{p: A, rng: e.rngA, mode: ma, eofWithData: c.EOFData}
+	rbd := &chunkReader{p: B, rng: e.rngB, mode: mb, eofWithData: c.EOFData}
 
-	r.Guard("roundtrip", c, func() {
+	r.Guard(e.prefix, witness, func() {
 		client := quicstreamheader.NewClientBroker(g.encs, g.enc, rbd, pipeW{A})
 		var handler *quicstreamheader.HandlerBroker
 		if c.WriterOnly {
@@ -337,8 +380,8 @@ func roundTrip(r *vlib.Run, g *rig, idx int) {
 			fail("ReadRequestHead", "header-differs", fmt.Sprintf("sent %s %s, read %s %s", headerHint(req), reqJSON, headerHint(got), gotJSON))
 			return
 		}
-		r.Count("roundtrip_request_heads", 1)
-		if !readBodies(r, "request", handler, reqBodies, fail) {
+		r.Count(e.counters+"request_heads", 1)
+		if !readBodies(r, e.counters, "request", handler, reqBodies, fail) {
 			return
 		}
 		if ra.overread {
@@ -390,8 +433,8 @@ func roundTrip(r *vlib.Run, g *rig, idx int) {
 			fail("ReadResponseHead", "header-differs", msg)
 			return
 		}
-		r.Count("roundtrip_response_heads", 1)
-		if !readBodies(r, "response", client, resBodies, fail) {
+		r.Count(e.counters+"response_heads", 1)
+		if !readBodies(r, e.counters, "response", client, resBodies, fail) {
 			return
 		}
 		if errInstead {
@@ -408,7 +451,7 @@ func roundTrip(r *vlib.Run, g *rig, idx int) {
 				fail("ReadBody(error-head)", "header-differs", msg)
 				return
 			}
-			r.Count("roundtrip_error_head_in_place_of_body", 1)
+			r.Count(e.counters+"error_head_in_place_of_body", 1)
 		}
 		if rbd.overread {
 			fail("client-reads", "over-read", "client side asked for more bytes than the handler wrote")
@@ -418,8 +461,8 @@ func roundTrip(r *vlib.Run, g *rig, idx int) {
 			fail("client-reads", "under-read", fmt.Sprintf("%d of %d response stream bytes consumed", rbd.pos, len(B.buf)))
 			return
 		}
-		r.Count("roundtrip_stream_bytes", len(A.buf)+len(B.buf))
-		r.Count("roundtrip_reader_chunks", ra.reads+rbd.reads)
+		r.Count(e.counters+"stream_bytes", len(A.buf)+len(B.buf))
+		r.Count(e.counters+"reader_chunks", ra.reads+rbd.reads)
 	})
 }
 
@@ -444,7 +487,7 @@ func sameResponse(g *rig, want, got quicstreamheader.ResponseHeader) string {
 	return ""
 }
 
-func readBodies(r *vlib.Run, side string, broker quicstreamheader.ReadBodyBroker, bodies []bodySpec, fail func(step, kind, what string)) bool {
+func readBodies(r reporter, counters, side string, broker quicstreamheader.ReadBodyBroker, bodies []bodySpec, fail func(step, kind, what string)) bool {
 	for i, b := range bodies {
 		step := fmt.Sprintf("ReadBody(%s,%s)", side, b.Kind)
 		bt, bl, body, _, res, err := broker.ReadBody(context.Background())
@@ -490,7 +533,7 @@ func readBodies(r *vlib.Run, side string, broker quicstreamheader.ReadBodyBroker
 				return false
 			}
 		}
-		r.Count("roundtrip_bodies_"+b.Kind, 1)
+		r.Count(counters+"bodies_"+b.Kind, 1)
 	}
 	return true
 }
@@ -543,6 +586,7 @@ func join(ps []part) []byte {
 var mutKinds = []string{
 	"none", "datatype", "bodytype", "length", "truncate", "truncate-open", "enchint", "header-json", "json-field",
 	"registered-hint", "bitflip", "garbage", "insert", "swap-side", "deep-json",
+	"enchint-key", "hint-key",
 }
 
 type fuzzCase struct {
@@ -559,11 +603,29 @@ type fuzzCase struct {
 	Len      int    `json:"stream_len"`
 	Head     string `json:"stream_hex_head"`
 
-	stream  []byte
-	variant int
-	mode    int
-	bodies  []bodySpec
-	valid   bool
+	Key     *keyChoice `json:"lookup_key_variant,omitempty"`
+	KeyAt   string     `json:"lookup_key_at,omitempty"`
+	Present int        `json:"presentations"`       // how often the stream is read, each time by a fresh broker over the same encoders
+	Orders  []string   `json:"presentation_orders"` // read calls of each presentation
+	Honest  bool       `json:"honest_round_trip_follows"`
+	Redrawn int        `json:"redrawn_because_of_huge_announced_length,omitempty"`
+
+	stream   []byte
+	variant  int
+	variants []int // per presentation
+	mode     int
+	bodies   []bodySpec
+	valid    bool
+	costly   bool // announces a huge length or a very deep document: presented once
+
+	// state of the presentations (child only)
+	maxAsk        int // largest read buffer the broker asked the stream to fill
+	pres          int
+	step          int             // guarded calls of this presentation so far
+	lastCall      string          // key (function@step) of the guarded call entered last
+	reachedNow    map[string]bool // guarded calls of this presentation
+	reachedBefore map[string]bool // guarded calls of the earlier presentations of these bytes
+	dirty         map[string]bool // call:failure reported without the repeat mark
 }
 
 var specialLens = []uint64{0, 1, 2, 7, 8, 1 << 16, 1 << 20, 1 << 31, 1 << 32, 1<<63 - 1, 1 << 63, 1<<64 - 1}
@@ -768,12 +830,23 @@ func genFuzz(r *vlib.Run, g *rig, idx int) (*fuzzCase, error) {
 		ps = []part{{"raw", b}}
 		fc.Closed = rng.Intn(4) > 0
 	case "insert":
-		all := join(ps)
-		p := rng.Intn(len(all) + 1)
-		ins := make([]byte, 1+rng.Intn(9))
-		rng.Read(ins)
-		fc.Detail = fmt.Sprintf("insert %d bytes at %d", len(ins), p)
-		all = append(all[:p:p], append(ins, all[p:]...)...)
+		orig := join(ps)
+		var all []byte
+		for try := 0; ; try++ {
+			p := rng.Intn(len(orig) + 1)
+			ins := make([]byte, 1+rng.Intn(9))
+			rng.Read(ins)
+			fc.Detail = fmt.Sprintf("insert %d bytes at %d", len(ins), p)
+			all = append(orig[:p:p], append(ins, orig[p:]...)...)
+			// bytes pushed into a length field can announce up to 2 GiB, which the
+			// reader allocates (more than once): that only costs time, and the
+			// "length" mutation covers such sizes with a bounded number of cases.
+			// The quick tier draws again.
+			if !r.Quick() || try >= 8 || !announcesHugeHead(all) {
+				break
+			}
+			fc.Redrawn++
+		}
 		ps = []part{{"raw", all}}
 	case "swap-side":
 		fc.Detail = "stream of the other direction"
@@ -796,8 +869,25 @@ func genFuzz(r *vlib.Run, g *rig, idx int) (*fuzzCase, error) {
 			v += "0" + strings.Repeat(cl, depth)
 		}
 		fc.Detail = fmt.Sprintf("nesting %q x %d", open, depth)
+		fc.costly = depth > 10000
 		setHeader([]byte(v), true)
+	case "enchint-key":
+		// the same key is sent in the request stream (case 2m) and in the response stream (case 2m+1)
+		kc := keyVariant(r.Rand(30, 6, idx/2), g.enc.Hint().String(), registeredTypes())
+		fc.Key, fc.KeyAt = &kc, "encoder-hint"
+		fc.Detail = fmt.Sprintf("encoder hint %q (%s)", trunc(kc.Key, 80), kc.label())
+		ps[2].B = []byte(kc.Key)
+		ps[1].B = util.Uint64ToBytes(uint64(len(kc.Key)))
+	case "hint-key":
+		nb, kc, where, err := mutateJSONKey(rng, js, registeredTypes())
+		if err != nil {
+			return nil, err
+		}
+		fc.Key, fc.KeyAt = &kc, "header"+where
+		fc.Detail = fmt.Sprintf("header%s := %q (%s)", where, trunc(kc.Key, 80), kc.label())
+		setHeader(nb, true)
 	}
+	fc.costly = fc.costly || bigLen
 
 	fc.stream = join(ps)
 	fc.Len = len(fc.stream)
@@ -819,12 +909,68 @@ func genFuzz(r *vlib.Run, g *rig, idx int) (*fuzzCase, error) {
 	} else {
 		fc.variant = rng.Intn(4)
 	}
-	if side == 0 {
-		fc.Reader = []string{"ReadRequestHead,ReadBody*", "ReadRequestHead,ReadBody*", "ReadBody*", "ReadRequestHead,ReadBodyErr*"}[fc.variant]
-	} else {
-		fc.Reader = []string{"ReadResponseHead,ReadBody*", "ReadBody*", "ReadBodyErr*", "ReadResponseHead,ReadBodyErr*"}[fc.variant]
+	fc.Reader = readOrders[side][fc.variant]
+	// presentations: the same bytes are read 2-4 times, each time by a freshly
+	// made broker that shares the long-lived encoders with all the others; the
+	// second repeats the first exactly, later ones may use another call order
+	prng := r.Rand(30, 7, idx)
+	fc.Present = 2 + prng.Intn(3)
+	if fc.costly {
+		fc.Present = 1
 	}
+	for p := 0; p < fc.Present; p++ {
+		v := fc.variant
+		switch {
+		case fc.valid:
+		case p == 2:
+			v = (fc.variant + 1 + prng.Intn(3)) % 4
+		case p == 3:
+			v = fc.variants[2]
+		}
+		fc.variants = append(fc.variants, v)
+		fc.Orders = append(fc.Orders, readOrders[side][v])
+	}
+	fc.Honest = prng.Intn(2) == 0
 	return fc, nil
+}
+
+var readOrders = [2][]string{
+	{"ReadRequestHead,ReadBody*", "ReadRequestHead,ReadBody*", "ReadBody*", "ReadRequestHead,ReadBodyErr*"},
+	{"ReadResponseHead,ReadBody*", "ReadBody*", "ReadBodyErr*", "ReadResponseHead,ReadBodyErr*"},
+}
+
+var (
+	registeredTypesOnce sync.Once
+	registeredTypesList []string
+)
+
+func registeredTypes() []string {
+	registeredTypesOnce.Do(func() {
+		for i := range hinters {
+			registeredTypesList = append(registeredTypesList, hinters[i].Hint.Type().String())
+		}
+	})
+	return registeredTypesList
+}
+
+// announcesHugeHead: would reading b as a head make the reader allocate more
+// than 16 MiB for the encoder hint or the header bytes?
+func announcesHugeHead(b []byte) bool {
+	off := uint64(1)
+	for i := 0; i < 2; i++ {
+		if uint64(len(b)) < off+8 {
+			return false
+		}
+		l, err := util.BytesToUint64(b[off : off+8])
+		switch {
+		case err != nil, l > 1<<31-1: // over the limit: refused before any allocation
+			return false
+		case l > 1<<24:
+			return true
+		}
+		off += 8 + l
+	}
+	return false
 }
 
 func headerHintFromJSON(js []byte) string {
@@ -854,18 +1000,96 @@ type childResult struct {
 	Distinct   []string
 	Violations []childViolation
 	Problems   []string // harness problems => inconclusive
+	Samples    []any
+
+	last []string
+}
+
+const repeatMark = "repeat-read-same-encoders"
+
+// A failure in a repeated presentation gets its own signature when an earlier
+// presentation of the same bytes went through the same call (same function,
+// same position in the sequence of calls) clean: then it is what an earlier
+// read left behind in the shared objects that broke this one. A call that sees
+// these bytes for the first time (another call order) or that failed before
+// in the same way keeps the plain signature.
+func (cr *childResult) enter(fc *fuzzCase, fn string) string {
+	fc.step++
+	k := fn + "@" + strconv.Itoa(fc.step)
+	if fc.reachedNow == nil {
+		fc.reachedNow = map[string]bool{}
+	}
+	fc.reachedNow[k] = true
+	fc.lastCall = k
+	return k
+}
+
+// call: key of the guarded call; failure: what went wrong in it
+func (cr *childResult) repeatOnly(fc *fuzzCase, call, failure string) bool {
+	if fc.dirty == nil {
+		fc.dirty = map[string]bool{}
+	}
+	k := call + ":" + failure
+	mark := fc.pres > 0 && fc.reachedBefore[call] && !fc.dirty[k]
+	if !mark {
+		fc.dirty[k] = true
+	}
+	return mark
+}
+
+// startPresentation p of fc
+func (fc *fuzzCase) startPresentation(p int) {
+	if fc.reachedBefore == nil {
+		fc.reachedBefore = map[string]bool{}
+	}
+	for k := range fc.reachedNow {
+		fc.reachedBefore[k] = true
+	}
+	fc.reachedNow, fc.step, fc.pres = nil, 0, p
+}
+
+func presWhat(fc *fuzzCase) string {
+	if fc.pres == 0 {
+		return ""
+	}
+	return fmt.Sprintf("presentation #%d of %d of the same bytes to a fresh broker over the same encoders (calls %s): ", fc.pres+1, fc.Present, fc.Orders[fc.pres])
+}
+
+func (cr *childResult) witness(fc *fuzzCase, more map[string]any) map[string]any {
+	w := map[string]any{"case": fc, "presentation": fc.pres + 1, "read_before_through_the_same_encoders": cr.recent()}
+	for k, v := range more {
+		w[k] = v
+	}
+	return w
+}
+
+// the last hostile cases this process read through the same encoders
+func (cr *childResult) recent() []string {
+	return append([]string{}, cr.last...)
+}
+
+func (cr *childResult) remember(fc *fuzzCase) {
+	cr.last = append(cr.last, fmt.Sprintf("case %d x%d %s stream, %s: %s", fc.Idx, fc.Present, fc.Side, fc.Mutation, trunc(fc.Detail, 120)))
+	if len(cr.last) > 6 {
+		cr.last = cr.last[len(cr.last)-6:]
+	}
 }
 
 // guarded call of code under test inside the child
 func (cr *childResult) guard(fc *fuzzCase, fn string, f func()) (panicked bool) {
+	key := cr.enter(fc, fn)
 	defer func() {
 		if e := recover(); e != nil {
 			panicked = true
 			st := string(debug.Stack())
+			mark := ""
+			if cr.repeatOnly(fc, key, "panic") {
+				mark = repeatMark + ":"
+			}
 			cr.Violations = append(cr.Violations, childViolation{
-				Sig:     "fuzz:" + fn + ":panic:" + vlib.PanicSite(st),
-				What:    fmt.Sprintf("fuzz case %d (%s stream, mutation %s: %s): %s panicked: %v", fc.Idx, fc.Side, fc.Mutation, fc.Detail, fn, e),
-				Witness: map[string]any{"case": fc, "stack": trunc(st, 3000)},
+				Sig:     "fuzz:" + fn + ":panic:" + mark + vlib.PanicSite(st),
+				What:    fmt.Sprintf("fuzz case %d (%s stream, mutation %s: %s): %s%s panicked: %v", fc.Idx, fc.Side, fc.Mutation, fc.Detail, presWhat(fc), fn, e),
+				Witness: cr.witness(fc, map[string]any{"stack": trunc(st, 3000)}),
 			})
 		}
 	}()
@@ -874,21 +1098,39 @@ func (cr *childResult) guard(fc *fuzzCase, fn string, f func()) (panicked bool) 
 }
 
 func (cr *childResult) viol(fc *fuzzCase, sig, what string) {
-	cr.Violations = append(cr.Violations, childViolation{Sig: sig, What: fmt.Sprintf("fuzz case %d (%s stream, mutation %s: %s): %s", fc.Idx, fc.Side, fc.Mutation, fc.Detail, what), Witness: map[string]any{"case": fc}})
+	if cr.repeatOnly(fc, fc.lastCall, sig) { // inside the guarded call entered last
+		sig += ":" + repeatMark
+	}
+	cr.Violations = append(cr.Violations, childViolation{Sig: sig, What: fmt.Sprintf("fuzz case %d (%s stream, mutation %s: %s): %s%s", fc.Idx, fc.Side, fc.Mutation, fc.Detail, presWhat(fc), what), Witness: cr.witness(fc, nil)})
 }
 
-func runFuzz(g *rig, cr *childResult, fc *fuzzCase, rng *rand.Rand) {
+// runFuzz: one presentation (fc.pres) of the bytes of fc to a freshly made
+// broker; returns the outcome of the calls.
+func runFuzz(g *rig, cr *childResult, fc *fuzzCase, rng *rand.Rand) string {
 	ctx := context.Background()
 	P := &pipe{buf: fc.stream, closed: fc.Closed}
-	rd := &chunkReader{p: P, rng: rng, mode: fc.mode, eofWithData: fc.EOFData}
+	mode := fc.mode
+	if fc.pres > 0 {
+		// every chunk costs the reader a goroutine and a buffer of the whole
+		// announced length; chunking was exercised by the first presentation
+		// and has no part in what the reads leave behind: re-read in big chunks
+		mode = max(mode, chunkBig)
+	}
+	rd := &chunkReader{p: P, rng: rng, mode: mode, eofWithData: fc.EOFData}
+	defer func() { fc.maxAsk = max(fc.maxAsk, rd.maxAsk) }()
 	out := &pipe{}
+	variant := fc.variants[fc.pres]
+	pfx := "fuzz_"
+	if fc.pres > 0 {
+		pfx = "fuzz_repeat_"
+	}
 	var outcome []string
 	note := func(fn string, err error) {
 		s := "ok"
 		if err != nil {
 			s = "err"
 		}
-		cr.Counters["fuzz_"+fn+"_"+s]++
+		cr.Counters[pfx+fn+"_"+s]++
 		outcome = append(outcome, fn+":"+s)
 	}
 
@@ -898,7 +1140,7 @@ func runFuzz(g *rig, cr *childResult, fc *fuzzCase, rng *rand.Rand) {
 		}
 		cr.guard(fc, fn+":body.Read", func() {
 			n, _ := io.Copy(io.Discard, io.LimitReader(body, 4<<20))
-			cr.Counters["fuzz_body_bytes_drained"] += int(n)
+			cr.Counters[pfx+"body_bytes_drained"] += int(n)
 		})
 	}
 
@@ -934,7 +1176,7 @@ func runFuzz(g *rig, cr *childResult, fc *fuzzCase, rng *rand.Rand) {
 					return
 				}
 				if res != nil {
-					cr.Counters["fuzz_ReadBody_gave_response_header"]++
+					cr.Counters[pfx+"ReadBody_gave_response_header"]++
 					cr.guard(fc, fn+":res.accessors", func() { _ = res.OK(); _ = res.Err(); _ = res.IsValid(nil) })
 					return
 				}
@@ -948,7 +1190,7 @@ func runFuzz(g *rig, cr *childResult, fc *fuzzCase, rng *rand.Rand) {
 					stop = true
 					return
 				}
-				cr.Counters["fuzz_bodies_delivered_type_"+strconv.Itoa(int(bt[0]))]++
+				cr.Counters[pfx+"bodies_delivered_type_"+strconv.Itoa(int(bt[0]))]++
 				drain(fn, body)
 				if bt == quicstreamheader.StreamBodyType {
 					stop = true
@@ -962,7 +1204,7 @@ func runFuzz(g *rig, cr *childResult, fc *fuzzCase, rng *rand.Rand) {
 	if fc.Side == "request" {
 		hb := quicstreamheader.NewHandlerBroker(g.encs, nil, rd, pipeW{out})
 		headOK := true
-		if fc.variant != 2 {
+		if variant != 2 {
 			cr.guard(fc, "ReadRequestHead", func() {
 				h, err := hb.ReadRequestHead(ctx)
 				note("ReadRequestHead", err)
@@ -981,23 +1223,23 @@ func runFuzz(g *rig, cr *childResult, fc *fuzzCase, rng *rand.Rand) {
 				// what quicstreamheader.NewHandler does next with the header
 				cr.guard(fc, "ReadRequestHead:header.IsValid", func() {
 					if err := h.IsValid(nil); err != nil {
-						cr.Counters["fuzz_request_header_delivered_invalid"]++
+						cr.Counters[pfx+"request_header_delivered_invalid"]++
 					} else {
-						cr.Counters["fuzz_request_header_delivered_valid"]++
+						cr.Counters[pfx+"request_header_delivered_valid"]++
 					}
 					_ = h.Handler()
 				})
 			})
 		}
 		if headOK {
-			readBodies(hb, fc.variant == 3)
+			readBodies(hb, variant == 3)
 			// and the handler answers: must not panic either
 			cr.guard(fc, "WriteResponseHeadOK", func() { _ = hb.WriteResponseHeadOK(ctx, false, errors.New("bad request")) })
 		}
 	} else {
 		cb := quicstreamheader.NewClientBroker(g.encs, g.enc, rd, pipeW{out})
 		headOK := true
-		if fc.variant == 0 || fc.variant == 3 {
+		if variant == 0 || variant == 3 {
 			cr.guard(fc, "ReadResponseHead", func() {
 				enc, res, err := cb.ReadResponseHead(ctx)
 				note("ReadResponseHead", err)
@@ -1017,37 +1259,91 @@ func runFuzz(g *rig, cr *childResult, fc *fuzzCase, rng *rand.Rand) {
 					_ = res.OK()
 					_ = res.Err()
 					if err := res.IsValid(nil); err != nil {
-						cr.Counters["fuzz_response_header_delivered_invalid"]++
+						cr.Counters[pfx+"response_header_delivered_invalid"]++
 					} else {
-						cr.Counters["fuzz_response_header_delivered_valid"]++
+						cr.Counters[pfx+"response_header_delivered_valid"]++
 					}
 				})
 			})
 		}
 		if headOK {
-			readBodies(cb, fc.variant >= 2)
+			readBodies(cb, variant >= 2)
 		}
 	}
+	o := strings.Join(outcome, ",")
+	if fc.pres == 0 {
+		cr.Counters["fuzz_mutation_"+fc.Mutation]++
+		cr.Counters["fuzz_outcome_"+fc.Side+"_"+o]++
+		if fc.Key != nil {
+			cr.Counters["fuzz_key_at_"+strings.SplitN(fc.KeyAt, ".", 2)[0]]++
+			cr.Counters["fuzz_key_type_"+fc.Key.Type]++
+			cr.Counters["fuzz_key_version_"+fc.Key.Version]++
+			cr.Counters["fuzz_key_padding_"+fc.Key.Pad]++
+			if strings.HasSuffix(o, ":ok") || strings.Contains(o, "Head:ok") {
+				cr.Counters["fuzz_key_variant_accepted"]++
+			} else {
+				cr.Counters["fuzz_key_variant_rejected"]++
+			}
+		}
+	}
+	return o
+}
+
+func fuzzFingerprint(fc *fuzzCase) string {
 	h := fnv.New64a()
 	h.Write(fc.stream)
-	fmt.Fprintf(h, "|%s|%d|%d|%v|%v", fc.Side, fc.variant, fc.mode, fc.EOFData, fc.Closed)
-	cr.Distinct = append(cr.Distinct, fmt.Sprintf("%016x", h.Sum64()))
-	cr.Counters["fuzz_mutation_"+fc.Mutation]++
-	cr.Counters["fuzz_outcome_"+fc.Side+"_"+strings.Join(outcome, ",")]++
+	fmt.Fprintf(h, "|%s|%v|%d|%v|%v|%v", fc.Side, fc.variants, fc.mode, fc.EOFData, fc.Closed, fc.Honest)
+	return fmt.Sprintf("%016x", h.Sum64())
 }
 
 func idxFile(dir string, id string) string { return filepath.Join(dir, "c30-batch-"+id+".idx") }
 func resFile(dir string, id string) string { return filepath.Join(dir, "c30-batch-"+id+".json") }
+func ckFile(dir string, id string) string {
+	return filepath.Join(dir, "c30-batch-"+id+".checkpoint.json")
+}
 
-// child process: run fuzz cases [lo,hi), log the index before each case.
+// childReporter: the round-trip oracle reporting into the child's result.
+type childReporter struct{ cr *childResult }
+
+func (c childReporter) Case(fp string) {
+	c.cr.Distinct = append(c.cr.Distinct, "after-hostile:"+fp)
+	c.cr.Counters["after_hostile_roundtrips"]++
+}
+func (c childReporter) Count(k string, n int) { c.cr.Counters[k] += n }
+func (c childReporter) Sample(any)            {}
+func (c childReporter) Violation(sig, what string, witness any) {
+	c.cr.Violations = append(c.cr.Violations, childViolation{Sig: sig, What: what, Witness: witness})
+}
+func (c childReporter) Inconclusive(reason string) { c.cr.Problems = append(c.cr.Problems, reason) }
+func (c childReporter) Guard(sigPrefix string, witness any, f func()) (panicked bool) {
+	defer func() {
+		if e := recover(); e != nil {
+			panicked = true
+			st := string(debug.Stack())
+			c.Violation(sigPrefix+":panic:"+vlib.PanicSite(st), fmt.Sprintf("panic: %v", e), map[string]any{"input": witness, "stack": trunc(st, 3000)})
+		}
+	}()
+	f()
+	return false
+}
+
+const phaseHonest = 9 // index log: presentation number, or this for the round trip that follows
+
+// child process: run fuzz cases [lo,hi) one after the other through ONE rig
+// (one encoder.Encoders, one json encoder with its decoder set, the process
+// wide hint cache), as all brokers of a node share theirs: every case is
+// presented fc.Present times, then (fc.Honest) an honest exchange must round
+// trip through the same objects. The case index and the phase are logged
+// before each step.
 func childMain(t *testing.T, spec string) {
 	f := strings.Split(spec, ":")
-	if len(f) != 3 {
+	if len(f) != 4 {
 		t.Fatalf("bad %s=%q", envChild, spec)
 	}
 	lo, _ := strconv.Atoi(f[0])
 	hi, _ := strconv.Atoi(f[1])
 	id := f[2]
+	pool := f[3] == "pool"
 	r := vlib.Start(t, "C30", vlib.LevelExploration) // PRNG and work dir only; never Finish()ed here
 	dir := r.WorkDir()
 	g, err := newRig()
@@ -1055,9 +1351,19 @@ func childMain(t *testing.T, spec string) {
 	if err != nil {
 		cr.Problems = append(cr.Problems, "rig: "+err.Error())
 	} else {
+		if pool {
+			// the encoder's optional cache of decoded typed strings
+			_ = g.enc.SetPool(util.NewLRUGCache[string, any](1 << 10))
+			cr.Counters["fuzz_children_with_encoder_pool"]++
+		}
 		lf, err := os.OpenFile(idxFile(dir, id), os.O_CREATE|os.O_WRONLY|os.O_TRUNC, 0o644)
 		if err != nil {
 			t.Fatal(err)
+		}
+		logPhase := func(i, phase int) {
+			if _, err := lf.WriteAt([]byte(fmt.Sprintf("%012d %02d\n", i, phase)), 0); err != nil {
+				t.Fatal(err)
+			}
 		}
 		for i := lo; i < hi; i++ {
 			fc, err := genFuzz(r, g, i)
@@ -1065,28 +1371,73 @@ func childMain(t *testing.T, spec string) {
 				cr.Problems = append(cr.Problems, fmt.Sprintf("gen %d: %v", i, err))
 				continue
 			}
-			if _, err := lf.WriteAt([]byte(fmt.Sprintf("%012d\n", i)), 0); err != nil {
-				t.Fatal(err)
-			}
 			t0 := time.Now()
-			runFuzz(g, cr, fc, r.Rand(30, 3, i))
+			costly := fc.costly
+			outcomes := make([]string, fc.Present)
+			for p := 0; p < fc.Present; p++ {
+				if p >= 1 && fc.maxAsk > 1<<20 {
+					// a read made the broker allocate what the stream announced (up to
+					// 2 GiB, again for every chunk): not read again, it only costs time
+					cr.Counters["fuzz_cases_not_repeated_read_buffer_over_1MiB"]++
+					fc.Present, fc.variants, fc.Orders, outcomes = p, fc.variants[:p], fc.Orders[:p], outcomes[:p]
+					costly = true
+					break
+				}
+				fc.startPresentation(p)
+				logPhase(i, p)
+				outcomes[p] = runFuzz(g, cr, fc, r.Rand(30, 3, i, p))
+				cr.Counters["fuzz_presentations"]++
+				if p > 0 {
+					cr.Counters["fuzz_repeat_presentations"]++
+					if fc.variants[p] != fc.variants[p-1] {
+						cr.Counters["fuzz_repeat_presentations_other_call_order"]++
+					} else if outcomes[p] == outcomes[p-1] {
+						cr.Counters["fuzz_repeat_outcome_same_as_before"]++
+					} else {
+						cr.Counters["fuzz_repeat_outcome_differs"]++ // not demanded by the property; evidence only
+						fmt.Fprintf(os.Stderr, "outcome differs case %d presentation %d: %s then %s (%s %s %s)\n", i, p, outcomes[p-1], outcomes[p], fc.Side, fc.Mutation, fc.Detail)
+					}
+				}
+			}
+			cr.Distinct = append(cr.Distinct, fuzzFingerprint(fc))
 			cr.Counters["fuzz_cases"]++
+			cr.Counters["fuzz_cases_presented_"+strconv.Itoa(fc.Present)+"_times"]++
+			cr.Counters["fuzz_insert_redrawn_announcing_over_16MiB"] += fc.Redrawn
+			cr.remember(fc)
 			if d := time.Since(t0); d > time.Second {
 				cr.Counters["fuzz_cases_slower_than_1s"]++
 				fmt.Fprintf(os.Stderr, "slow case %d: %v %s %s %s len=%d chunk=%s\n", i, d, fc.Side, fc.Mutation, fc.Detail, fc.Len, fc.Chunk)
 			}
+			if fc.Honest {
+				logPhase(i, phaseHonest)
+				roundTripWith(rtEnv{
+					rep: childReporter{cr}, prefix: "roundtrip-after-hostile", counters: "after_hostile_roundtrip_", small: true, minChunk: chunkEightish,
+					rng: r.Rand(30, 8, i), rngA: r.Rand(30, 81, i), rngB: r.Rand(30, 82, i), after: cr.recent(),
+				}, g, i)
+			}
+			// checkpoint: should a later case kill this process, what was seen up to
+			// here is kept and only the cases after it are run again
+			if (i+1-lo)%25 == 0 || costly {
+				cr.Hi = i + 1
+				cr.save(t, ckFile(dir, id))
+			}
 		}
 		lf.Close()
 	}
+	cr.Hi = hi
+	cr.save(t, resFile(dir, id))
+}
+
+func (cr *childResult) save(t *testing.T, path string) {
 	b, err := json.Marshal(cr)
 	if err != nil {
 		t.Fatal(err)
 	}
-	tmp := resFile(dir, id) + ".tmp"
+	tmp := path + ".tmp"
 	if err := os.WriteFile(tmp, b, 0o644); err != nil {
 		t.Fatal(err)
 	}
-	if err := os.Rename(tmp, resFile(dir, id)); err != nil {
+	if err := os.Rename(tmp, path); err != nil {
 		t.Fatal(err)
 	}
 }
@@ -1110,9 +1461,31 @@ func (b *batcher) nextID() string {
 	return strconv.Itoa(b.seq)
 }
 
-// run [lo,hi) in a child; on a crash attribute it to the logged case and go on
-// with the rest.
-func (b *batcher) run(lo, hi int, depth int) {
+func (b *batcher) merge(rb []byte) (cr childResult, ok bool) {
+	r := b.r
+	if err := json.Unmarshal(rb, &cr); err != nil {
+		r.Inconclusive("child result unreadable: " + err.Error())
+		return cr, false
+	}
+	for _, p := range cr.Problems {
+		r.Inconclusive("fuzz child: " + p)
+	}
+	for k, v := range cr.Counters {
+		r.Count(k, v)
+	}
+	r.Eval(cr.Counters["fuzz_cases"] + cr.Counters["after_hostile_roundtrips"])
+	for _, d := range cr.Distinct {
+		r.Distinct("fuzz:" + d)
+	}
+	for _, v := range cr.Violations {
+		r.Violation(v.Sig, v.What, v.Witness)
+	}
+	return cr, true
+}
+
+// run [lo,hi) in a child; on a crash attribute it to the logged case, keep
+// what the child had checkpointed and go on with the rest.
+func (b *batcher) run(lo, hi int, pool string, depth int) {
 	if lo >= hi {
 		return
 	}
@@ -1125,7 +1498,7 @@ func (b *batcher) run(lo, hi int, depth int) {
 		return
 	}
 	cmd := exec.Command(b.exe, "-test.run=^TestC30$", "-test.count=1", "-test.timeout=0")
-	cmd.Env = append(os.Environ(), fmt.Sprintf("%s=%d:%d:%s", envChild, lo, hi, id), "VERIF_RESULT_FILE=", "GOTRACEBACK=all", "GOGC=50", "GOMEMLIMIT=6GiB", "GOMAXPROCS=2")
+	cmd.Env = append(os.Environ(), fmt.Sprintf("%s=%d:%d:%s:%s", envChild, lo, hi, id, pool), "VERIF_RESULT_FILE=", "GOTRACEBACK=all", "GOGC=50", "GOMEMLIMIT=6GiB", "GOMAXPROCS=2")
 	cmd.Stdout = ef
 	cmd.Stderr = ef
 	if err := cmd.Start(); err != nil {
@@ -1133,31 +1506,15 @@ func (b *batcher) run(lo, hi int, depth int) {
 		r.Inconclusive("start child: " + err.Error())
 		return
 	}
-	finished := r.WithWatchdog(20*time.Minute, fmt.Sprintf("fuzz child batch [%d,%d)", lo, hi), func() { _ = cmd.Wait() })
+	var waitErr error
+	finished := r.WithWatchdog(20*time.Minute, fmt.Sprintf("fuzz child batch [%d,%d)", lo, hi), func() { waitErr = cmd.Wait() })
 	ef.Close()
 	if !finished {
 		_ = cmd.Process.Kill()
 		return
 	}
 	if rb, err := os.ReadFile(resFile(b.dir, id)); err == nil {
-		var cr childResult
-		if err := json.Unmarshal(rb, &cr); err != nil {
-			r.Inconclusive("child result unreadable: " + err.Error())
-			return
-		}
-		for _, p := range cr.Problems {
-			r.Inconclusive("fuzz child: " + p)
-		}
-		for k, v := range cr.Counters {
-			r.Count(k, v)
-		}
-		r.Eval(cr.Counters["fuzz_cases"])
-		for _, d := range cr.Distinct {
-			r.Distinct("fuzz:" + d)
-		}
-		for _, v := range cr.Violations {
-			r.Violation(v.Sig, v.What, v.Witness)
-		}
+		b.merge(rb)
 		return
 	}
 	// no result: the child died. Which case?
@@ -1170,8 +1527,8 @@ func (b *batcher) run(lo, hi int, depth int) {
 		r.Inconclusive(fmt.Sprintf("fuzz child [%d,%d) died before its first case: %s", lo, hi, trunc(string(stderr), 1500)))
 		return
 	}
-	c, err := strconv.Atoi(strings.TrimSpace(string(ib)))
-	if err != nil || c < lo || c >= hi {
+	var c, phase int
+	if n, err := fmt.Sscanf(strings.TrimSpace(string(ib)), "%d %d", &c, &phase); err != nil || n != 2 || c < lo || c >= hi {
 		r.Inconclusive("fuzz child index log unreadable: " + string(ib))
 		return
 	}
@@ -1183,6 +1540,7 @@ func (b *batcher) run(lo, hi int, depth int) {
 	} else if i := strings.Index(st, "fatal error:"); i >= 0 {
 		st = st[i:]
 	}
+	goReport := strings.HasPrefix(st, "panic:") || strings.HasPrefix(st, "fatal error:")
 	first := strings.SplitN(st, "\n", 2)[0]
 	kind := "crash"
 	if strings.Contains(first, "stack overflow") || strings.Contains(st[:min(len(st), 400)], "stack overflow") {
@@ -1190,16 +1548,48 @@ func (b *batcher) run(lo, hi int, depth int) {
 	} else if strings.Contains(first, "out of memory") {
 		kind = "out-of-memory"
 	}
-	r.Violation("fuzz:process-"+kind+":"+vlib.PanicSite(st),
-		fmt.Sprintf("fuzz case %d killed the process (not recoverable by the caller): %s", c, trunc(first, 300)),
-		map[string]any{"case": fc, "stderr": trunc(st, 4000)})
-	r.Eval(1)
+	// the earlier presentations of these bytes (and everything before them in
+	// this child) went through the same encoders without killing the process
+	sig, when := "fuzz:process-"+kind+":", "its first presentation"
+	switch {
+	case phase == phaseHonest:
+		sig, when = "roundtrip-after-hostile:process-"+kind+":", "the honest round trip that followed its presentations"
+	case phase > 0 && fc != nil && phase < len(fc.variants):
+		when = fmt.Sprintf("presentation #%d of %d", phase+1, fc.Present)
+		for p := 0; p < phase; p++ {
+			if fc.variants[p] == fc.variants[phase] {
+				sig += repeatMark + ":"
+				when += " (a fresh broker over the same encoders reading the same bytes in the same call order as before)"
+				break
+			}
+		}
+	}
+	if !goReport {
+		// ended from outside (the kernel's out-of-memory killer on a machine shared
+		// with other work, a signal) or by the harness itself: nothing the code
+		// under test reported, so no verdict on this case
+		r.Inconclusive(fmt.Sprintf("fuzz child [%d,%d) ended (%v) at case %d phase %d without a result and without a Go panic / fatal error report: %s", lo, hi, waitErr, c, phase, trunc(st, 600)))
+	} else {
+		r.Violation(sig+vlib.PanicSite(st),
+			fmt.Sprintf("fuzz case %d, %s, killed the process (not recoverable by the caller): %s", c, when, trunc(first, 300)),
+			map[string]any{"case": fc, "phase": phase, "batch": []int{lo, hi}, "encoder_pool": pool, "stderr": trunc(st, 4000)})
+		r.Eval(1)
+	}
 	if depth > 200 {
 		r.Inconclusive("too many crashing fuzz cases in one batch; rest of the batch skipped")
 		return
 	}
-	b.run(lo, c, depth+1)
-	b.run(c+1, hi, depth+1)
+	done := lo // cases [lo,done) are in the child's last checkpoint
+	if rb, err := os.ReadFile(ckFile(b.dir, id)); err == nil {
+		if cr, ok := b.merge(rb); ok && cr.Lo == lo && cr.Hi > lo && cr.Hi <= c {
+			done = cr.Hi
+		} else if ok {
+			r.Inconclusive(fmt.Sprintf("fuzz child checkpoint [%d,%d) does not fit the crash at %d of [%d,%d)", cr.Lo, cr.Hi, c, lo, hi))
+			return
+		}
+	}
+	b.run(done, c, pool, depth+1)
+	b.run(c+1, hi, pool, depth+1)
 }
 
 func TestC30(t *testing.T) {
@@ -1209,9 +1599,13 @@ func TestC30(t *testing.T) {
 	}
 	r := vlib.Start(t, "C30", vlib.LevelExploration)
 	defer r.Finish()
-	r.SetRule("round trip: case i uses request header type i mod 27 (every request header type of isaac/network and quicmemberlist that launch/hinters.go registers, built by its constructor with PRNG field values), a PRNG response header (Default ok/not-ok/err, AskHandoverResponse, BlockItemResponse), 0-2 request and 0-2 response bodies (Empty, FixedLength 0/1/2/7/8/9/100/4095/4096/65536/random, Stream; nil reader where legal), optionally an error head in place of a body, over two one-way in-memory pipes read in chunks of 1 | 1-3 | 7-9 | 1-64 | 1-8192 | all bytes, last chunk with or without io.EOF; distinct = (header type, body list, response type, chunk modes, eof mode). fuzz: case j = valid stream (request or response side, header type cycling) with one mutation of kind (j/2 mod 15) from {none, datatype, bodytype, length (incl. 2^31-1, 2^31, 2^63, 2^64-1), truncate, truncate-open, enchint, header-json (null, {}, wrong type, unknown/huge/odd hint, truncated), json-field (drop/null/wrong type/huge), registered-hint (every registered non-header type), bitflip, garbage, insert, swap-side, deep-json}, fed to ReadRequestHead/ReadResponseHead/ReadBody/ReadBodyErr in 4 call orders; distinct = hash(stream bytes, read order, chunking); run in child processes of 700 (quick) / 2500 (thorough) cases")
+	r.SetRule("round trip: case i uses request header type i mod 27 (every request header type of isaac/network and quicmemberlist that launch/hinters.go registers, built by its constructor with PRNG field values), a PRNG response header (Default ok/not-ok/err, AskHandoverResponse, BlockItemResponse), 0-2 request and 0-2 response bodies (Empty, FixedLength 0/1/2/7/8/9/100/4095/4096/65536/random, Stream; nil reader where legal), optionally an error head in place of a body, over two one-way in-memory pipes read in chunks of 1 | 1-3 | 7-9 | 1-64 | 1-8192 | all bytes, last chunk with or without io.EOF; distinct = (header type, body list, response type, chunk modes, eof mode). " +
+		"fuzz: case j = valid stream (request or response side, header type cycling) with one mutation of kind (j/2 mod 17) from {none, datatype, bodytype, length (incl. 2^31-1, 2^31, 2^63, 2^64-1), truncate, truncate-open, enchint, header-json (null, {}, wrong type, unknown/huge/odd hint, truncated), json-field (drop/null/wrong type/huge), registered-hint (every registered non-header type), bitflip, garbage, insert (quick tier: drawn again when it makes a head announce 16 MiB - 2 GiB), swap-side, deep-json, " +
+		"enchint-key, hint-key}; the two -key kinds send a non-canonical or unknown variant of a string the receiver uses as a lookup key - the encoder hint of the head (the same variant in the request case 2m and the response case 2m+1), a _hint anywhere in the header json, or the type suffix of a typed string - varied in type (other case, one more/less letter, unknown, another registered type, inner space) x version (patch/minor/major higher or lower, short vN / vN.N of the same or another major, V, prerelease, build, leading zero, overflowing number, 4 numbers, none) x padding (spaces, NULs, tab, newline, nbsp; behind, in front, both), each dimension changed with probability 1/2; " +
+		"fed to ReadRequestHead/ReadResponseHead/ReadBody/ReadBodyErr in 4 call orders. State between reads: all cases of a child process (700 quick / 2500 thorough, in index order) are read by freshly made brokers over ONE long-lived set of objects (one encoder.Encoders, one json encoder and its decoder set, the process-wide hint cache; every second child also sets the encoder's pool of decoded typed strings), and every case is PRESENTED 2-4 times in a row (the 2nd presentation repeats the 1st exactly, the 3rd takes another call order, the 4th repeats the 3rd - unmodified streams keep the full call order and must be accepted every time; re-read in chunks of 1-8192 or all bytes; streams that announce > 64 KiB, are nested > 10000 deep or made the broker ask for a read buffer > 1 MiB once only); after the presentations of a case, with probability 1/2, an honest exchange (request header type j mod 27, PRNG response header, small bodies, optional error head, chunks of 7-9 | 1-64 | 1-8192 | all bytes) must round trip through the same objects under the round-trip oracle above (signatures roundtrip-after-hostile:*). A failure of a repeated presentation whose first presentation in that call order was clean is reported with the marker " + repeatMark + ". distinct = hash(stream bytes, call orders of all presentations, chunking, honest-follows) for fuzz cases, the round-trip fingerprint for the honest exchanges")
 	r.Assume("the 32-byte handler prefix in front of a request is consumed by quicstream before the header broker sees the stream")
 	r.Assume("a writer hands WriteBody a reader holding exactly bodyLength bytes for FixedLength bodies")
+	r.Assume("re-reading the same hostile bytes need not give the same answer as before (the statement does not say so): differing outcomes are counted (fuzz_repeat_outcome_differs), only panics, crashes, ill-formed results and rejected honest streams are violations")
 	r.Assume("a fuzz result counts as well-formed when: no error => non-nil header (request: of RequestHeader type; IsValid/Handler callable), valid body type, non-nil reader for FixedLength/Stream, and reading the body to its end does not panic")
 
 	g, err := newRig()
@@ -1250,7 +1644,7 @@ func TestC30(t *testing.T) {
 	r.Set("roundtrip_wall_s", time.Since(t0).Seconds())
 	t0 = time.Now()
 
-	nf := r.N(10500, 300000)
+	nf := r.N(700*len(mutKinds), 300000)
 	exe, err := os.Executable()
 	if err != nil {
 		r.Inconclusive("os.Executable: " + err.Error())
@@ -1259,16 +1653,35 @@ func TestC30(t *testing.T) {
 	b := &batcher{r: r, g: g, dir: r.WorkDir(), exe: exe}
 	batch := r.N(700, 2500)
 	nb := (nf + batch - 1) / batch
-	vlib.Parallel(nb, 12, func(k int) { b.run(k*batch, min((k+1)*batch, nf), 0) })
+	vlib.Parallel(nb, 12, func(k int) {
+		pool := "nopool"
+		if k%2 == 1 {
+			pool = "pool"
+		}
+		b.run(k*batch, min((k+1)*batch, nf), pool, 0)
+	})
 	r.Set("fuzz_wall_s", time.Since(t0).Seconds())
 	r.Set("fuzz_child_processes", b.childs)
 	r.Set("fuzz_child_crashes", b.crash)
-	for i := 0; i < 3; i++ {
-		if fc, err := genFuzz(r, g, 2*len(mutKinds)*7+i*5+2); err == nil {
+	r.Set("fuzz_mutation_kinds", len(mutKinds))
+	r.Set("fuzz_key_variant_space", map[string]int{"type": len(keyTypeDims) + 1, "version": len(keyVerDims) + 1, "padding": len(keyPadDims) + 1, "typed_string_suffix": len(keySuffixDims)})
+	types := 0
+	for _, rb := range g.req {
+		if r.Counter("after_hostile_roundtrip_header_"+rb.name) > 0 {
+			types++
+		}
+	}
+	r.Set("after_hostile_request_header_types_roundtripped", types)
+	ek, hk := 2*(len(mutKinds)-2), 2*(len(mutKinds)-1) // first enchint-key / hint-key case
+	for _, j := range []int{2*len(mutKinds)*7 + 2, ek + 1, hk + 2*len(mutKinds)*3} {
+		if fc, err := genFuzz(r, g, j); err == nil {
 			r.Sample(fc)
 		}
 	}
 	if r.Counter("fuzz_cases") == 0 {
 		r.Inconclusive("no fuzz case ran")
+	}
+	if b.crash == 0 && (r.Counter("fuzz_repeat_presentations") == 0 || r.Counter("after_hostile_roundtrips") == 0 || r.Counter("fuzz_mutation_enchint-key") == 0 || r.Counter("fuzz_mutation_hint-key") == 0) {
+		r.Inconclusive("no repeated presentation / no honest round trip after hostile streams / no lookup-key variant ran")
 	}
 }
